@@ -264,6 +264,38 @@ impl PersistOracle {
 		Ok(())
 	}
 
+	/// (b) for broadcasts: a node hands its own commitment transaction to the broadcaster only once the update
+	/// that stored that commitment and every earlier update are durable. `holder_number` is the commitment number of the broadcast transaction
+	/// (None if it is the commitment signed during channel establishment).
+	pub fn check_commitment_broadcast(&mut self, node: usize, chan: &ChannelId, holder_number: Option<u64>, user_requested: bool) -> CaseResult {
+		let Some(v) = self.ups.get(&(node, *chan)) else { return Ok(()) };
+		let mut dep: Option<u64> = None;
+		if let Some(n) = holder_number {
+			let k = (((1u64 << 48) - 1) - n) as usize;
+			if k >= 1 {
+				if let Some(u) = v.iter().filter(|u| u.steps.iter().any(|s| s.starts_with("LatestHolderCommitment"))).nth(k - 1) {
+					dep = Some(u.id);
+				}
+			}
+		}
+		// The ChannelForceClosed update that triggers the broadcast is deliberately not a dependency: a
+		// commitment that is already durable may be broadcast at any time without invalidating anything.
+		self.stats.gated_messages += 1;
+		if let Some(dep) = dep {
+			let blocking: Vec<u64> = v.iter().filter(|u| u.id <= dep && !u.complete).map(|u| u.id).collect();
+			if !blocking.is_empty() {
+				let _ = user_requested;
+				let key = "broadcast-before-durable/holder-commitment";
+				return Err(fail(
+					"broadcast-before-durable",
+					format!("node {} broadcast its commitment transaction of chan {} (depends on monitor update {}) while updates {:?} were still in flight", node, chan, dep, blocking),
+				)
+				.with_key(key));
+			}
+		}
+		Ok(())
+	}
+
 	/// After a settle: nothing may be left half-way (a withheld message that was never released shows as a
 	/// pending HTLC that is not in the committed state).
 	pub fn check_not_stuck(&self, sim: &Sim) -> CaseResult {
